@@ -208,9 +208,13 @@ def check(P, R):
     R.ob('C15.d', dec, dec.node, ok, text='reader framing bytes ! and ?', detail='' if ok else 'reader does not use the writer\'s framing bytes', nontrivial=False)
 
     check_get_cookie(P, R)
+    R.rule('C15.f', 'a response copy owns its cookie morsels', floor=1)
+    check_copy_owns_cookies(P, R)
+
+
+def check_copy_owns_cookies(P, R):
     # a copied response owns its cookies: they are rebuilt from the rendered text, not from the Morsel objects of the original (SimpleCookie(mapping)
     # and dict-style copies keep the very same Morsels, and set_cookie mutates a Morsel in place)
-    R.rule('C15.f', 'a response copy owns its cookie morsels', floor=1)
     cpf = P.func('ombott.response:BaseResponse.copy')
     stores_ = [st for st in walk_shallow(cpf.node) if isinstance(st, ast.Assign) and any(isinstance(t, ast.Attribute) and t.attr == '_cookies' for t in st.targets)]
     loads_ = [c for c in walk_shallow(cpf.node) if isinstance(c, ast.Call) and call_attr(c) in ('load', 'update') and (dotted(c.func.value) or '').endswith('._cookies')]
